@@ -10,6 +10,7 @@ EXPLANATION = (
     "returns Err with the transaction durable and half applied; the same two clauses for GraphEngine::get_or_create_label, whose mutation point is "
     "LabelInterner::get_or_create; (3) ERRFLOW — no storage/io Result is dropped, `.ok()`-ed or defaulted inside commit, compact, "
     "checkpoint_on_close, rewrite_as_snapshot, Pager::*, IdMap::*. It does not decide behaviour under injected faults."
+    " C08.5: Wal::append stores to no field of the log handle before its last fallible write (no error exit is reachable from such a store), so a failed log write leaves the handle describing the log that exists."
 )
 
 LABEL_GET_OR_CREATE = "nervusdb_storage::label_interner::LabelInterner::get_or_create"
@@ -23,6 +24,7 @@ def run(ctx):
     from .c02 import scanner_rule
     ctx.rule("C08.4", "log scanners discard the records of a failed (never committed) transaction when the next BeginTx arrives")
     scanner_rule(ctx, "C08.4")
+    wal_cursor_rule(ctx)
     ctx.rule("C08.1", "error exits before the durability point pass no mutation / publication point")
     ctx.rule("C08.2", "no propagated fallible call between the durability point and the last publication point")
     ctx.rule("C08.3", "no storage / io Result is discarded in the commit, compaction, checkpoint, pager and node-table code")
@@ -89,3 +91,33 @@ def run(ctx):
     ctx.instance("C08.3", "%d fallible call sites in %d functions scanned" % (n_res, len(scoped)))
     ctx.obligations += n_res
     ctx.discharged += n_res - len(seen_keys)
+
+
+WAL_TY = "nervusdb_storage::wal::Wal"
+
+
+def wal_cursor_rule(ctx, rid="C08.5"):
+    """a failed log write leaves the log handle as it was: no field of the handle is updated before the last fallible write of the method"""
+    F = ctx.facts
+    ctx.rule(rid, "in the Wal methods that write records (append and what it calls), no store to a field of the log handle can be followed by an error exit: "
+             "a cursor advanced before a write that then fails points past the end of the file, and the next commit leaves a hole that truncates the log on reopen")
+    n = 0
+    for fn in (M.WAL_APPEND,):
+        b = ctx.body(fn)
+        fails = paths.fail_blocks(b)
+        stores = []
+        for bi, blk in enumerate(b.blocks):
+            if b.is_cleanup(bi):
+                continue
+            for st in blk["s"]:
+                if st[0] == "a" and st[1][1] and any(isinstance(p, list) and p[0] == "f" and p[3] == WAL_TY for p in st[1][1]):
+                    stores.append((bi, [p[2] for p in st[1][1] if isinstance(p, list) and p[0] == "f"][-1]))
+        n += 1
+        ctx.instance(rid, "%s: stores to log-handle fields: %s" % (fn.split("::")[-1], sorted(set(f for _, f in stores)) or "none"))
+        for bi, field in stores:
+            after = b.reachable([bi])
+            bad = sorted(x for x in fails if x in after and x != bi)
+            ctx.oblige(not bad, rid, "%s:%s:%s:store-before-fallible-write" % (rid, fn.split("::")[-1], field),
+                       "%s assigns the log handle's `%s` and can still fail afterwards: after an I/O error the handle describes a log that was never written" %
+                       (fn.split("::")[-1], field), "%s:%d" % (b.file, b.line_of_block(bi)))
+    ctx.floor(rid, "log-writing methods inspected", n, 1)
